@@ -68,6 +68,13 @@ CHECKS = [
              "block, single-byte corruption at every offset and an I/O error at every refill index, and each run is validated by TLC.",
      "note": TLC_NOTE,
      "technique": "abstract reader property as a TLA+ trace spec; exhaustive fault enumeration over real files (every offset / refill index), each run trace-validated by TLC"},
+    {"property_id": "C06", "level": "model_checking", "design_ref": "DESIGN.md §6 C06",
+     "text": "ContainerFile.tla specifies the file layout as a parser and a writer over bytes. Reader side: TLC builds every reference file of a plan space "
+             "(values x block partitions x codec entry absent / six names x user keys x key orders x seven metadata-map layouts), proves ParseFile o BuildFile = id "
+             "on it, and the real reader must return values and user metadata. Writer side: real files of all codecs with random user metadata are judged byte by "
+             "byte by TLC (header, metadata, sync, block counts / sizes, raw-deflate framing, snappy CRC-32 computed in TLA+).",
+     "note": TLC_NOTE + " The independent implementation is the specification's own parser/writer; apache-avro is not linked into the harness.",
+     "technique": "TLA+ spec of the container layout (parser + writer); TLC-built reference files replayed into the real reader; real files trace-validated by TLC"},
     {"property_id": "C07", "level": "model_checking", "design_ref": "DESIGN.md §6 C07",
      "text": "Name resolution is specified in TLA+ from the Avro specification's wording (SchemaDesc!Resolve: dotted name > namespace attribute incl. \"\" > "
              "enclosing namespace, inheritance through records / arrays / maps / unions, definition before or after use, duplicate / unknown / missing-attribute / "
